@@ -68,6 +68,7 @@ Fixpoint no_crlf (l : list Z) : Prop :=
 Definition item_no_crlf (it : item) : Prop :=
   match it with
   | IStart _ attrs _ _ => Forall (fun a => no_crlf (a_val a)) attrs
+  | ITag _ _ _ _ _ => False     (* the general opener is not an XML construct: no reference semantics *)
   | _ => True
   end.
 
@@ -109,8 +110,8 @@ Proof. induction attrs as [|a attrs IH]; intros rest; cbn [map app]; [reflexivit
 Lemma tok_events_item it rest : item_no_crlf it ->
   tok_events None (expect_item it ++ rest) = ref_item it ++ tok_events None rest.
 Proof.
-  intros H. destruct it as [t|b|b|ps|n attrs ws|n attrs ws void|n ws]; cbn [expect_item ref_item app tok_events olist item_no_crlf] in *;
-    try reflexivity.
+  intros H. destruct it as [t|b|b|ps|n attrs ws|n attrs ws void|n ws|pi n gs ws k]; cbn [expect_item ref_item app tok_events olist item_no_crlf] in *;
+    try reflexivity; try contradiction.
   - rewrite <- app_assoc. rewrite tok_events_pi_attrs. reflexivity.
   - rewrite <- app_assoc. rewrite tok_events_attrs by exact H. cbn [app]. destruct void; reflexivity.
 Qed.
